@@ -14,10 +14,11 @@ MANIFEST = {
 
 
 def run(ctx):
-    core.build_harness(["commit_sched", "commit_size_sweep"])
+    core.build_harness(["commit_sched", "commit_size_sweep", "visibility_stress"])
     _commit.model_check(ctx, faults=1)
     _commit.replay_schedules(ctx, "edge", faults=1)
     _commit.size_sweep(ctx, ctx.pick(60, 600))
+    _commit.visibility_stress(ctx, ctx.pick(3, 30))
     if not ctx.quick:
         _commit.replay_schedules(ctx, "sim4", faults=1, txns='{"t1", "t2", "t3", "t4"}', sim=3000, depth=40)
     ctx.cov["exhaustive"] = True
